@@ -882,7 +882,19 @@ class UniformTime(np.ndarray, TimeInterface):
                            int(self.sampling_interval) - int(d_interval))
         return self
 
+    @staticmethod
+    def _whole_factor(val):
+        # A numpy integer (scalar, 0-d or one-element array) as a python int:
+        # the attribute arithmetic below is done on python ints, and
+        # int(t0) * np.int16(2) overflows (or, for a one-element array, the
+        # new t0 is not a scalar) AFTER the samples have been changed
+        if (isinstance(val, (np.integer, np.ndarray)) and np.size(val) == 1
+            and issubclass(np.asarray(val).dtype.type, np.integer)):
+            val = int(np.asarray(val).reshape(()))
+        return val
+
     def __imul__(self, val):
+        val = self._whole_factor(val)
         if val == 0:
             raise ValueError('Scaling by 0 would collapse the time axis')
         np.ndarray.__imul__(self, val)
@@ -893,6 +905,7 @@ class UniformTime(np.ndarray, TimeInterface):
     def __idiv__(self, val):
         # Times are whole numbers of the base unit: division is allowed when
         # it leaves them whole (and hence uniform)
+        val = self._whole_factor(val)
         if (val == 0 or int(self.t0) % val or
             int(self.sampling_interval) % val):
             raise ValueError('Division by %s would break uniformity' % val)
